@@ -9,7 +9,7 @@ import (
 
 func init() {
 	register("C02", "Decides structural necessary conditions of 'only chains that lead, in submitted order, to a trusted root are admitted': "+
-		"(R1) ValidateChain's leaf filters block chain verification exactly as the property states: the NotAfter window start ≤ t < limit over all presence/order cases, CA-only ∧ ¬IsCA, rejectExpired ∧ expired, rejectUnexpired ∧ ¬expired (48 valuations), a hit in the forbidden-extension set, no hit in a non-empty required-EKU set; all filters read element 0 of the parsed chain, every raw certificate is parsed and a fatal parse error rejects; each filter is unavoidable however the others turn out: the first test of the window, of the CA-only/expiry table and of the required-EKU table lies on every path from the entry to Verify, and so does (unless there is nothing to look for) the scan for forbidden extensions, which visits every extension of the leaf, probes each one in a set holding every configured OID, and goes on after a miss; "+
+		"(R1) ValidateChain's leaf filters block chain verification exactly as the property states: the NotAfter window start ≤ t < limit over all presence/order cases, CA-only ∧ ¬IsCA, rejectExpired ∧ expired, rejectUnexpired ∧ ¬expired (48 valuations), a hit in the forbidden-extension set / list, no hit in a non-empty required-EKU set; all filters read element 0 of the parsed chain, every raw certificate is parsed and a fatal parse error rejects; each filter is unavoidable however the others turn out: the first test of the window, of the CA-only/expiry table and of the required-EKU table lies on every path from the entry to Verify, and so does (unless there is nothing to look for) the scan for forbidden extensions, which visits every extension of the leaf, probes each one in a set holding every configured OID (or compares it with every configured OID in a nested scan), and goes on after a miss; "+
 		"(R2) x509 Verify runs on that leaf with Roots = the configured trusted pool, Intermediates = a fresh pool holding exactly the submitted certificates after the first, name chaining enabled and exactly the five documented relaxations; "+
 		"(R3) the path handed on is an element of Verify's result for which chainsEquivalent(parsed chain, it) held, otherwise an error; chainsEquivalent refuses other lengths than n or n+1 and any position where the certificates differ (Certificate.Equal = equality of Raw); "+
 		"(R4) IsPrecertificate: (true,nil) iff poison ∧ critical ∧ value = ASN.1 NULL, poison otherwise ⇒ error, no poison ⇒ (false,nil); the OID and NULL constants; "+
@@ -148,15 +148,21 @@ func c02ValidateChain(r *Run, fn *ssa.Function) {
 	for _, k := range r.bindAtom(fn, RuleAtom{Pat: "*[0].IsCA"}) {
 		r.Check("ValidateChain:CA-bit-of-leaf", k == leaf+".IsCA", r.FnPos(fn), "CA-only filter reads "+clipStr(k, 140))
 	}
-	// forbidden extensions: a set hit rejects; the set is the configured OIDs, the probe an extension of the leaf
-	// (the set is a map keyed by the OID string, whatever its value type: membership is what is tested)
+	// forbidden extensions: a hit rejects.  Membership of an extension's OID in the configured list is decided
+	// either by a nested scan that compares the two OIDs (rules_t5c18.go) or by a set probe: the set is the
+	// configured OIDs, the probe an extension of the leaf (the set is a map keyed by the OID string, whatever
+	// its value type: membership is what is tested)
 	rej := "make:map[string]*[(asn1.ObjectIdentifier).String(*.Id)]*"
-	r.FailEdge(fn, "ValidateChain", EdgeSpec{Name: "forbidden-extension", Atom: boolAtom(rej), Bad: "T", Want: wantErr(true), Unreach: vi})
-	ext := r.allocOf(fn, leaf+".Extensions[*]")
-	for _, k := range r.bindAtom(fn, boolAtom(rej)) {
-		r.Check("ValidateChain:forbidden-extension-probe", ext != "" && glob("make:map[string]*[(asn1.ObjectIdentifier).String("+ext+".Id)]*", k) && strings.Count(k, "(asn1.ObjectIdentifier).String(") == 1, r.FnPos(fn), "probes the OID of "+ext+" ← leaf.Extensions[i]")
+	if c02ForbiddenExtScan(r, fn, leaf, vi) {
+		rej = "" // decided, unavoidability included, on the scan form
+	} else {
+		r.FailEdge(fn, "ValidateChain", EdgeSpec{Name: "forbidden-extension", Atom: boolAtom(rej), Bad: "T", Want: wantErr(true), Unreach: vi})
+		ext := r.allocOf(fn, leaf+".Extensions[*]")
+		for _, k := range r.bindAtom(fn, boolAtom(rej)) {
+			r.Check("ValidateChain:forbidden-extension-probe", ext != "" && glob("make:map[string]*[(asn1.ObjectIdentifier).String("+ext+".Id)]*", k) && strings.Count(k, "(asn1.ObjectIdentifier).String(") == 1, r.FnPos(fn), "probes the OID of "+ext+" ← leaf.Extensions[i]")
+		}
+		c02MapSet(r, fn, "ValidateChain:forbidden-extension-set", rej, "(asn1.ObjectIdentifier).String(p1.rejectExtIds[*])")
 	}
-	c02MapSet(r, fn, "ValidateChain:forbidden-extension-set", rej, "(asn1.ObjectIdentifier).String(p1.rejectExtIds[*])")
 	// required EKUs: with a non-empty list, no hit rejects (set probe, slices.Contains or scan of the configured list)
 	ekuAtoms := c02RequiredEKU(r, fn, leaf, vi)
 	// every filter is unavoidable on the way to chain verification, however the other filters turn out
